@@ -36,6 +36,14 @@ def build():
     return ok, (p.stdout + p.stderr)[-4000:]
 
 
+def target_uptodate(pid):
+    """After a failed global build: are Props/<pid>.vo (with everything it depends on) and the extracted runner
+    nevertheless up to date?  Then the failure is in files this property does not depend on."""
+    p = subprocess.run(["make", "-f", "Makefile.coq", "-q", "Props/%s.vo" % pid, "Extract/Extract.vo"],
+                       cwd=COQ, capture_output=True, text=True)
+    return p.returncode == 0 and os.path.exists(os.path.join(VERIF, "ocaml", "driver"))
+
+
 def scan_forbidden():
     hits = []
     for root, _, files in os.walk(COQ):
